@@ -358,6 +358,10 @@ class Evaluator:
                 return type(v) is self.cls(a[1].id)
             if name == 'as_':
                 return self.ev(a[0], env, snap, old)
+            if name == 'bsum':
+                return sum(len(x) for x in list(vals[0])[:vals[1]])
+            if name == 'bsum_unfold':
+                return True
             if name == 'uf':
                 return self.ghost_funcs[vals[0]](*vals[1:])
             if name == 'allocated' or name == 'fresh_obj':
